@@ -90,7 +90,7 @@ func verifC14Store(kind int) {
 	defer env.close()
 	symR := kind == 0 || kind == 1 || kind == 4 || kind == 5 || kind == 7 || kind == 8
 	symRole2 := kind == 1 || kind == 4 || kind == 5 || kind == 7 || kind == 8
-	symLink := kind == 2 || kind == 3
+	symLink := kind == 2 || kind == 3 || kind == 9
 	if kind == 7 || kind == 8 {
 		n = 1
 	}
@@ -180,6 +180,16 @@ func verifC14Store(kind int) {
 			}
 			c := lb.IterateStringListInDirection(forward)
 			verifrt.CursorScript(want, c, forward, steps, 1, "C14 typed bucket string-list cursor")
+		case 9: // one runtime symbol re-opened row after row (what a scan does), each time left standing on its first element
+			rt := env.emp.symDepts.GetRuntimeSymbol()
+			for i := range p.ids {
+				var want [][]byte
+				if p.linkedX[i] {
+					want = [][]byte{[]byte("x")}
+				}
+				c := rt.OpenCursor(tx, p.ids[i])
+				verifrt.CheckPosition(want, verifrt.Bound{}, c, true, "C14 set-symbol runtime cursor re-opened on the next row")
+			}
 		case 8: // the set symbol's runtime cursor (what filter evaluation iterates), with SeekToString
 			if len(p.ids) == 0 {
 				verifrt.Outside("needs an entity")
@@ -208,12 +218,13 @@ func verifC14Store(kind int) {
 	})
 }
 
-func VerifC14_SetIndexValueCursor()    { verifC14Store(0) }
-func VerifC14_SetIndexKeyCursor()      { verifC14Store(1) }
-func VerifC14_LinkCollectionCursor()   { verifC14Store(2) }
-func VerifC14_RelatedEntitiesCursor()  { verifC14Store(3) }
-func VerifC14_MatchingAllOfCursor()    { verifC14Store(4) }
-func VerifC14_MatchingAnyOfCursor()    { verifC14Store(5) }
-func VerifC14_IdIterationCursor()      { verifC14Store(6) }
-func VerifC14_StringListCursor()       { verifC14Store(7) }
-func VerifC14_SetSymbolRuntimeCursor() { verifC14Store(8) }
+func VerifC14_SetIndexValueCursor()     { verifC14Store(0) }
+func VerifC14_SetIndexKeyCursor()       { verifC14Store(1) }
+func VerifC14_LinkCollectionCursor()    { verifC14Store(2) }
+func VerifC14_RelatedEntitiesCursor()   { verifC14Store(3) }
+func VerifC14_MatchingAllOfCursor()     { verifC14Store(4) }
+func VerifC14_MatchingAnyOfCursor()     { verifC14Store(5) }
+func VerifC14_IdIterationCursor()       { verifC14Store(6) }
+func VerifC14_StringListCursor()        { verifC14Store(7) }
+func VerifC14_SetSymbolRuntimeCursor()  { verifC14Store(8) }
+func VerifC14_SetSymbolReopenedCursor() { verifC14Store(9) }
